@@ -17,7 +17,12 @@
 (*   RankOK    1 <= r <= min(#singular values, cap)                        *)
 (*   ChopOK    discarded energy <= (per-bond tolerance)^2 * |spectrum|^2   *)
 (*             unless the cap was binding                                  *)
-(*   Split     (d-1) * (per-bond tolerance)^2 <= eps^2                     *)
+(*   Split     (per-bond tolerance)^2 <= eps^2: no bond may spend more than *)
+(*             the whole budget (how the budget is split over the bonds is *)
+(*             the routine's choice - equal shares, or shares that carry   *)
+(*             over what earlier bonds did not spend)                      *)
+(*   Budget    the energy discarded so far, summed over the bonds seen,    *)
+(*             <= eps^2 * total energy, unless a cap was binding           *)
 (*   Remainder |spectrum|^2 <= total energy                                *)
 (*   End       all d-1 bonds seen and, if no cap was binding, the measured *)
 (*             squared error <= eps^2 * total                              *)
@@ -32,24 +37,31 @@ ZERO == -1073741824     \* L(0)
 LOGN == <<0, 1024, 1623, 2048, 2377, 2647, 2874, 3072>>
 LogInt(n) == IF n <= 8 THEN LOGN[n] ELSE 3072 + 1024      \* d - 1 <= 8 in every recorded run; larger: over-estimate
 
-VARIABLES tid, l, capped
-vars == <<tid, l, capped>>
+\* a lower estimate of L(x + y) from L(x), L(y): max + floor(1024 log2(1 + 2^-(q+1))) with q = floor(difference / 1024)
+LADD == <<599, 329, 173, 89, 45, 22, 11, 5, 2, 1>>
+LAdd(a, b) == LET hi == IF a >= b THEN a ELSE b  lo == IF a >= b THEN b ELSE a  q == (hi - lo) \div 1024 IN
+              IF lo = ZERO \/ q >= 10 THEN hi ELSE hi + LADD[q + 1]
+
+VARIABLES tid, l, capped, spent
+vars == <<tid, l, capped, spent>>
 
 ASSUME \A t \in 1..NT : TLCSet(t, 0)
 
 T == Traces[tid]
-Init == tid \in 1..NT /\ l = 1 /\ capped = FALSE
+Init == tid \in 1..NT /\ l = 1 /\ capped = FALSE /\ spent = ZERO
 
 StepOK(e) ==
     /\ e.bond >= 1 /\ e.bond <= T.d - 1 /\ \A j \in 1..(l - 1) : T.ev[j].bond # e.bond   \* Order: every bond once, in any order
     /\ e.r >= 1 /\ e.r <= e.nsv /\ e.r <= e.cap                                      \* RankOK
     /\ (e.r < e.cap \/ e.r = e.nsv => e.tail_L <= e.thr_L + SLACK)                   \* ChopOK
-    /\ (e.epsb2_L = ZERO \/ e.epsb2_L + LogInt(T.d - 1) <= T.eps2_L + SLACK)           \* Split
+    /\ (e.epsb2_L = ZERO \/ e.epsb2_L <= T.eps2_L + SLACK)                             \* Split
     /\ e.norm_L <= T.total_L + SLACK                                                  \* Remainder
 Next ==
     /\ l <= Len(T.ev)
     /\ StepOK(T.ev[l])
     /\ capped' = (capped \/ (T.ev[l].r = T.ev[l].cap /\ T.ev[l].r < T.ev[l].nsv))
+    /\ spent' = LAdd(spent, T.ev[l].tail_L)
+    /\ (capped' \/ spent' = ZERO \/ spent' <= T.eps2_L + T.total_L + 2 * SLACK)        \* Budget
     /\ l' = l + 1
     /\ (TLCGet(tid) < l => TLCSet(tid, l))
     /\ UNCHANGED tid
@@ -59,7 +71,7 @@ Finish ==
     /\ Len(T.ev) = (IF T.d >= 1 THEN T.d - 1 ELSE 0)
     /\ (capped \/ T.err2_L = ZERO \/ T.err2_L <= T.eps2_L + T.total_L + SLACK \/ T.err2_L <= T.total_L - 90000)   \* (or below roundoff: 2^-88 of the total)
     /\ TLCSet(tid, Len(T.ev) + 1)
-    /\ l' = l + 1 /\ UNCHANGED <<tid, capped>>
+    /\ l' = l + 1 /\ UNCHANGED <<tid, capped, spent>>
 Spec == Init /\ [][Next \/ Finish]_vars
 
 \* acceptance: register = number of events + 1 (the Finish step was taken)
